@@ -102,6 +102,8 @@ class C09(F.Spec):
                 dt = min(left, rng.choice([250000, 200000, 100000]))      # long runs: keep the case short
             if costly:
                 dt = min(left, 10000)
+            elif tt == 0 and not small and rng.random() < .05:
+                dt = min(left, rng.choice([500000, 800000, 1200000]))      # now and then a callback that comes very late
             ops.append("rstick 0 %d" % dt)
             left -= dt
         ops += ["msg 110 " + set_value(8, 0, dur, [0]).hex(), "rstick 0 10000", "rstick 0 10000"]
